@@ -576,3 +576,6 @@ def run(ctx):
     # one of the histories, so C18's re-encoding clauses are re-evaluated here
     from props import C18
     C18.rules(ctx)
+    # what is read back is what the item API stored: the caller's vector, encoded as is, with the header derived from it
+    from props import C19
+    C19.r_stored_leaf(ctx)
